@@ -5,9 +5,13 @@
 extern "C" { char *itoa(int, char *, unsigned short); char *utoa(unsigned, char *, unsigned short); char *ltoa(long, char *, unsigned short); char *ultoa(unsigned long, char *, unsigned short); }
 extern "C" { void debug_printdec_uint8(uint8_t); void debug_printdec_uint16(uint16_t); void debug_printdec_uint32(uint32_t); void debug_printdec_uint64(uint64_t); }
 using namespace vlog;
-static std::vector<unsigned char> dbg;
-extern "C" void debug_putchar(char c) { dbg.push_back((unsigned char)c); }
-extern "C" void debug_write(const char *c, int n) { dbg.insert(dbg.end(), (const unsigned char *)c, (const unsigned char *)c + n); }
+static std::vector<unsigned char> dbg, dbg_in;
+// "Dprn": re-entrant sink - the application's debug_write consumes the span character by character and itself prints numbers through the
+// debug printers after each character (a line-numbering log sink); both outputs must be what they are alone.
+static int g_nest = 0;
+static void inner_prints() { debug_printdec_uint64(18446744073709551557ULL); debug_printhex_uint32(0x89abcdefu); debug_printdec_signed_int(-7654321); debug_printbin_uint8(0xA5); }
+extern "C" void debug_putchar(char c) { if (g_nest == 2) { dbg_in.push_back((unsigned char)c); return; } dbg.push_back((unsigned char)c); if (g_nest == 1) { g_nest = 2; dbg_in.clear(); inner_prints(); g_nest = 1; } }
+extern "C" void debug_write(const char *c, int n) { for (int i = 0; i < n; ++i) debug_putchar(c[i]); }
 static const int W = 96, G = 8;
 int main(int argc, char **argv) {
     return run(argc, argv, [&](const std::vector<std::string> &t) {
@@ -27,7 +31,8 @@ int main(int argc, char **argv) {
             else if (fn == "u8") { v = igris_atou8(s, base, &end); w = 1; } else if (fn == "u16") { v = igris_atou16(s, base, &end); w = 2; } else if (fn == "u32") { v = igris_atou32(s, base, &end); w = 4; } else if (fn == "u64") { v = igris_atou64(s, base, &end); w = 8; }
             else { fprintf(stderr, "bad fn\n"); exit(3); }
             Ev e("Ato"); e.str("fn", fn.c_str()).bytes("text", tx.data(), tx.size()).i("base", base).le("val", v, w).i("endoff", end ? (long)(end - s) : -99); e.end(); free(s);
-        } else if (op == "Dpr") {   // Dpr fn valLE
+        } else if (op == "Dpr" || op == "Dprn") {   // Dpr fn valLE
+            g_nest = op == "Dprn" ? 1 : 0; dbg_in.clear();
             auto vb = blist(t[2]); unsigned long long v = 0; for (size_t i = 0; i < vb.size(); ++i) v |= (unsigned long long)vb[i] << (8 * i); dbg.clear();
             if (fn == "dec_i8") debug_printdec_signed_char((signed char)v); else if (fn == "dec_i16") debug_printdec_signed_short((short)v); else if (fn == "dec_i32") debug_printdec_signed_int((int)v);
             else if (fn == "dec_i64") debug_printdec_signed_long_long((long long)v); else if (fn == "dec_il") debug_printdec_signed_long((long)v);
@@ -36,7 +41,14 @@ int main(int argc, char **argv) {
             else if (fn == "hex_u8") debug_printhex_uint8((uint8_t)v); else if (fn == "hex_u16") debug_printhex_uint16((uint16_t)v); else if (fn == "hex_u32") debug_printhex_uint32((uint32_t)v); else if (fn == "hex_u64") debug_printhex_uint64((uint64_t)v);
             else if (fn == "bin_u8") debug_printbin_uint8((uint8_t)v); else if (fn == "bin_u16") debug_printbin_uint16((uint16_t)v); else if (fn == "bin_u32") debug_printbin_uint32((uint32_t)v); else if (fn == "bin_u64") debug_printbin_uint64((uint64_t)v);
             else { fprintf(stderr, "bad fn\n"); exit(3); }
-            Ev e("Dpr"); e.str("fn", fn.c_str()).bytes("val", vb.data(), vb.size()).bytes("out", dbg.data(), dbg.size()); e.end();
+            int nested = g_nest; g_nest = 0;
+            Ev e("Dpr"); e.str("fn", fn.c_str()).bytes("val", vb.data(), vb.size()).bytes("out", dbg.data(), dbg.size()).i("nested", nested); e.end();
+            if (nested && !dbg_in.empty()) {   // the inner prints of the last character, as ordinary events: split the sink by re-running them alone is not needed - they are logged as one event each
+                std::vector<unsigned char> all = dbg_in; const char *fns[4] = {"dec_u64", "hex_u32", "dec_i32", "bin_u8"}; unsigned long long vals[4] = {18446744073709551557ULL, 0x89abcdefu, (unsigned)-7654321, 0xA5}; int wid[4] = {8, 4, 4, 1};
+                // boundaries: run each inner print alone to learn its length (the lengths are fixed by the values)
+                size_t off = 0; for (int k = 0; k < 4; ++k) { dbg.clear(); if (k == 0) debug_printdec_uint64(vals[0]); else if (k == 1) debug_printhex_uint32((uint32_t)vals[1]); else if (k == 2) debug_printdec_signed_int((int)vals[2]); else debug_printbin_uint8((uint8_t)vals[3]);
+                    size_t len = dbg.size(); unsigned char vb2[8]; for (int j = 0; j < 8; ++j) vb2[j] = (unsigned char)(vals[k] >> (8 * j));
+                    Ev e2("Dpr"); e2.str("fn", fns[k]).bytes("val", vb2, wid[k]).bytes("out", all.data() + (off < all.size() ? off : all.size()), off + len <= all.size() ? len : (off < all.size() ? all.size() - off : 0)).i("inner", 1); e2.end(); off += len; } }
         }
     });
 }
